@@ -4,7 +4,7 @@ use multiboot2_common::{MaybeDynSized, Tag};
 
 /// Terminates a list of optional tags in a Multiboot2 header.
 #[derive(Copy, Clone, Debug, PartialEq, Eq, PartialOrd, Ord, Hash)]
-#[repr(C)]
+#[repr(C, align(8))]
 pub struct EndHeaderTag {
     header: HeaderTagHeader,
 }
@@ -20,7 +20,7 @@ impl EndHeaderTag {
     #[must_use]
     pub const fn new() -> Self {
         let header = HeaderTagHeader::new(
-            HeaderTagType::EntryAddress,
+            HeaderTagType::End,
             HeaderTagFlag::Required,
             mem::size_of::<Self>() as u32,
         );
